@@ -17,6 +17,15 @@ FULL = ["January", "February", "March", "April", "May", "June", "July", "August"
 SEQS = [[0], [1], [2]] + [[a, b] for a in range(3) for b in range(3)]
 
 
+def sr(v):
+    """repr that survives ints beyond the digit limit"""
+    try:
+        r = repr(v)
+    except ValueError:
+        return "<int with more than 4300 digits>"
+    return r if len(r) < 80 else r[:40] + "...(%d chars)" % len(r)
+
+
 def jv(v):
     import decimal
     import fractions
@@ -45,6 +54,9 @@ def unjv(v):
             return v["bool"]
         if "list" in v:
             return [unjv(x) for x in v["list"]]
+        if "pow10" in v:                      # ints too large for JSON / str(): sign * (10**e + delta)
+            sg, e, d = v["pow10"]
+            return sg * (10 ** e + d)
         if "float" in v:
             return float(v["float"])
         if "complex" in v:
@@ -82,6 +94,9 @@ def generate(rng, tier):
     near = [-1, 0, 13, 99, 10 ** 17, "0", "13", "00", "000012x", "{jan}", '"1"', '"jan"', "{1}", "", " jan", "jan ", "janu",
             "ja", "sept", "Sept.", "1.0", "+1", "-1", "1 ", "x", "maybe", "marc", "decembe", "١", "²", "1²",
             "١٢", "１", None, ["jan"], [], "JAN", "İan", "maſ", "MAY", "may", "May"]
+    # beyond int()'s digit limit (sys.get_int_max_str_digits() = 4300): zero-padded months are still months, the rest is unchanged
+    near += ["0" * 4300 + "1", "0" * 5000 + "12", "1" * 4301, "0" * 4299 + "1", {"pow10": [1, 4300, 0]}, {"pow10": [-1, 4300, 0]}, {"pow10": [1, 4300, -1]},
+             "\u0660" * 4500 + "\u0661\u0662", "9" * 5000]
     # numbers that EQUAL a month number but are neither int nor str: not month spellings, must come back unchanged
     import decimal
     import fractions
@@ -132,9 +147,13 @@ def month_of(v):
         return v if 1 <= v <= 12 else None
     if isinstance(v, str):
         if v.isdecimal():
+            import unicodedata
+            i = 0
+            while i < len(v) - 1 and unicodedata.decimal(v[i]) == 0:      # leading zeros do not change the number
+                i += 1
             try:
-                n = int(v)
-            except ValueError:
+                n = int(v[i:])
+            except ValueError:                                            # more digits than int() converts: not 1..12
                 return None
             return n if 1 <= n <= 12 else None
         lo = v.lower()
@@ -175,7 +194,8 @@ def impl(case):
         fields = [Field("month", "zzz", 1), Field("a", "b", 2), Field("month", v, 3)]   # duplicate key: last one is used
     entry = Entry("article", "k", fields, start_line=0, raw="@article{k}")
     abstract = ("MonthIntMiddleware", "MonthAbbreviationMiddleware", "MonthLongStringMiddleware")
-    sx_in = [10, inp["mws"], enc.enc_block(entry, abstract)]
+    huge = isinstance(v, int) and not isinstance(v, bool) and abs(v) >= 10 ** 4000      # cannot be printed: oracle only
+    sx_in = None if huge else [10, inp["mws"], enc.enc_block(entry, abstract)]
 
     def run():
         lib = Library([entry])
@@ -185,14 +205,14 @@ def impl(case):
     r = implutil.guarded(run)
     rec = {"sx_in": sx_in, "key": json.dumps([inp["value"], inp["mws"], shape])}
     if r[0] == "exc":
-        rec["sx_out"] = implutil.r_exc(r[1])
-        rec["oracle"] = {"ok": False, "detail": "middleware raised %s on month value %r" % (r[2], v)}
+        rec["sx_out"] = None if huge else implutil.r_exc(r[1])
+        rec["oracle"] = {"ok": False, "detail": "middleware raised %s on month value %s" % (r[2], sr(v))}
         rec["summary"] = "raised " + r[2]
         rec["nontrivial"] = True
         return rec
     lib = r[1]
     blk = lib.blocks[0]
-    rec["sx_out"] = implutil.r_ok(enc.enc_block(blk, abstract))
+    rec["sx_out"] = None if huge else implutil.r_ok(enc.enc_block(blk, abstract))
     # model instances: ASCII lower, ASCII decimals
     if isinstance(v, str) and (not enc.lower_is_ascii_only(v) or (v.isdecimal() and not v.isascii())):
         rec["skip"] = True
@@ -213,7 +233,7 @@ def impl(case):
             got = fs[pos].value
             exp = expected(inp["mws"][-1], v)
             if not (type(got) is type(exp) and (got == exp or (got != got and exp != exp))):
-                ok, detail = False, "month value %r through %r gave %r (%s), expected %r" % (v, inp["mws"], got, type(got).__name__, exp)
+                ok, detail = False, "month value %s through %r gave %s (%s), expected %s" % (sr(v), inp["mws"], sr(got), type(got).__name__, sr(exp))
         others = [(f.key, f.value) for i, f in enumerate(fs) if i != pos]
         orig = [(f.key, f.value) for i, f in enumerate(fields) if i != pos]
         if shape != 1 and [k for k, _ in others] != [k for k, _ in orig]:
@@ -222,7 +242,7 @@ def impl(case):
     m = month_of(v)
     rec["nontrivial"] = (m is not None) or case["stream"] in ("near", "shape")
     rec["tags"] = ["month" if m is not None else "nonmonth"]
-    rec["summary"] = repr([(f.key, f.value) for f in blk.fields])[:200] if type(blk).__name__ == "Entry" else type(blk).__name__
+    rec["summary"] = ("[" + ", ".join("(%r, %s)" % (f.key, sr(f.value)) for f in blk.fields) + "]")[:200] if type(blk).__name__ == "Entry" else type(blk).__name__
     return rec
 
 
